@@ -131,7 +131,7 @@ REG["C38"] = dict(
         "c38_zero_on_equal_len9": H(module="simd", enc=["simd::l2_distance_squared_simd (scalar build)"], sym="9 finite f32", bound="length 9 (crosses the 8-lane boundary of the accelerated build)"),
         "c38_non_negative_len2": H(module="simd", enc=["simd::l2_distance_squared_simd"], sym="2x2 finite f32", bound="length 2"),
         "c38_symmetric_len1": H("thorough", module="simd", enc=["simd::l2_distance_squared_simd"], sym="2 finite f32", bound="length 1"),
-        "c38_symmetric_len2": H("thorough", module="simd", enc=["simd::l2_distance_squared_simd"], sym="2x2 finite f32", bound="length 2"),
+        "c38_symmetric_len2": H("experimental", module="simd", enc=["simd::l2_distance_squared_simd"], sym="2x2 finite f32", bound="length 2"),
         "c38_two_hot_len7": H(module="simd", enc=["simd::l2_distance_squared_simd"], sym="two positions, two integer differences in [-8, 8]", bound="length 7 (remainder only)"),
         "c38_two_hot_len9": H(module="simd", enc=["simd::l2_distance_squared_simd"], sym="as above", bound="length 9 (one 8-lane chunk + remainder 1)"),
         "c38_two_hot_len16": H(module="simd", enc=["simd::l2_distance_squared_simd"], sym="as above", bound="length 16 (two chunks, no remainder)"),
@@ -145,7 +145,7 @@ REG["C38"] = dict(
         "c38_simd_non_negative_len2": H(module="simd", features=["simd"], enc=["simd::l2_distance_squared_simd (simd feature build: wide::f32x8 over SSE, the default configuration)"], sym="2x2 finite f32", bound="length 2"),
         "c38_simd_non_negative_len8": H("thorough", module="simd", features=["simd"], enc=["simd::l2_distance_squared_simd (simd feature build: wide::f32x8 over SSE, the default configuration)"], sym="2x8 finite f32", bound="length 8 (one full 8-lane chunk)"),
         "c38_empty_vectors": H(module="simd", enc=["simd::l2_distance_simd", "l2_distance_squared_simd"], sym="-", bound="length 0"),
-        "c38_exact_domain_len2": H("thorough", module="simd", enc=["simd::l2_distance_squared_simd"], sym="2x2 integers in [-1024, 1024]", bound="length 2 on the exactness domain (every intermediate exact in f32)"),
+        "c38_exact_domain_len2": H("experimental", module="simd", enc=["simd::l2_distance_squared_simd"], sym="2x2 integers in [-1024, 1024]", bound="length 2 on the exactness domain (every intermediate exact in f32)"),
     },
     assumptions=["c38_simd_* harnesses are built with --features simd (the accelerated code users run by default): wide::f32x8 executes as compiled, with the three SSE intrinsics it lowers to on this target (_mm_sub_ps, _mm_add_ps, _mm_mul_ps) replaced by IEEE lane-wise models, because Kani attaches an integer-overflow check to float simd_sub/add/mul; AVX code paths of `wide` (not compiled for the baseline x86_64 target) are outside the claim", "the other harnesses are built with --no-default-features (scalar fallback)."],
     out=["closeness of accelerated and scalar results on arbitrary floats (float sums in different orders: not decided; the two-hot harnesses decide it on inputs where every intermediate is exact)", "lengths other than 0, 2, 4, 7, 8, 9, 16, 23", "non-finite inputs", "AVX builds of the wide crate"],
